@@ -172,6 +172,16 @@ fn run(sh: &mut Shard) {
         let n = check_program(sh, &prog);
         sh.add("runs", n);
     }
+    // scope events x kinds of use: which declaration does each kind of use resolve to after each scope event
+    slices::scope_event_programs(2, &mut |prog| {
+        if !sh.mine() {
+            return;
+        }
+        sh.begin(&|| printer::program(&prog));
+        sh.count("family:scope-events");
+        let n = check_program(sh, &prog);
+        sh.add("runs", n);
+    });
     for prog in slices::nested_function_programs() {
         if !sh.mine() {
             continue;
